@@ -342,7 +342,7 @@ wait:
 	go func() { bg.Wait(); close(bgDone) }()
 	select {
 	case <-bgDone:
-	case <-time.After(10 * time.Second):
+	case <-pbt.After(10 * time.Second):
 		stopPoller.Store(true)
 		return fmt.Errorf("the input / resize traffic goroutine is still blocked 10s after the methods %v finished", c.Methods)
 	}
@@ -352,7 +352,7 @@ wait:
 	go func() { defer catch("Fini"); s.Fini(); close(fin) }()
 	select {
 	case <-fin:
-	case <-time.After(10 * time.Second):
+	case <-pbt.After(10 * time.Second):
 		return fmt.Errorf("Fini did not return after methods %v; goroutines with tcell frames:\n%s", c.Methods, tcellStacks())
 	}
 	if p := firstPanic.Load(); p != nil {
